@@ -23,6 +23,10 @@
     pub open spec fn ns_same(a: Namespace, b: Namespace) -> bool {
         a.namespace@ == b.namespace@ && a.abbreviation@ == b.abbreviation@ && a.rust_mod_name@ == b.rust_mod_name@
     }
+    impl vstd::std_specs::cmp::PartialEqSpecImpl for Namespace {
+        open spec fn obeys_eq_spec() -> bool { true }
+        open spec fn eq_spec(&self, other: &Namespace) -> bool { ns_same(*self, *other) }
+    }
     impl PartialEq for Namespace {
         #[verifier::external_body]
         fn eq(&self, other: &Self) -> (r: bool)
